@@ -117,6 +117,9 @@ def fixed_workloads(group):
     return []
 
 
+FAULT_OPS = ("add", "update", "remove", "flush")
+
+
 def make_workloads(group, n_random, n_ops, kinds, seed, reject_bias=0.25):
     init_idx, wanted, rm = GROUPS[group]
     rng = random.Random(seed * 7919 + sum(map(ord, group)))
@@ -269,6 +272,10 @@ def run_property(prop, tier, mc_cfgs, plan, level_text_rule, assumptions, extra=
     t_stats = []
     for (group, n_random, n_ops, kinds, mode, rb) in plan:
         ws = make_workloads(group, n_random, n_ops, kinds, vlib.seed(), rb)
+        if mode == "fault":
+            # the fault tier covers add / update / remove / flush (see Collection.tla, "Storage faults")
+            for w in ws:
+                w["ops"] = [o for o in w["ops"] if o["op"] in FAULT_OPS]
         st = drive_and_validate(group, ws, mode, wd, f"{group}-{mode}")
         vlib.log(f"[{prop}] T {group}/{mode}: workloads={st['workloads']} traces={st['traces']} "
                  f"crash_points={st['crash_points']} nested={st['nested_points']} states={st['states']} "
